@@ -127,6 +127,8 @@ pub struct Stats {
 pub struct EvalOut {
     pub value: Result<Val, Failure>,
     pub log: Vec<u32>,
+    /// per log entry: end token index (= lookahead index) of the reduction it ran in
+    pub log_hi: Vec<usize>,
     /// end token index (= lookahead index) of the reduction whose action failed
     pub fail_hi: Option<usize>,
     pub stats: Stats,
@@ -139,6 +141,7 @@ pub struct Evaluator<'a> {
     pub toks: &'a [InTok],
     pub default_loc: usize,
     log: Vec<u32>,
+    log_hi: Vec<usize>,
     fail_hi: Option<usize>,
     stats: Stats,
     host_groups: Vec<(u32, Vec<(usize, u32)>)>,
@@ -152,12 +155,12 @@ struct Span {
 
 impl<'a> Evaluator<'a> {
     pub fn new(g: &'a Core, toks: &'a [InTok]) -> Self {
-        Evaluator { g, toks, default_loc: 0, log: vec![], fail_hi: None, stats: Stats::default(), host_groups: vec![] }
+        Evaluator { g, toks, default_loc: 0, log: vec![], log_hi: vec![], fail_hi: None, stats: Stats::default(), host_groups: vec![] }
     }
 
     pub fn run(mut self, tree: &Tree) -> EvalOut {
         let value = self.eval_host(tree);
-        EvalOut { value, log: self.log, fail_hi: self.fail_hi, stats: self.stats, host_groups: self.host_groups }
+        EvalOut { value, log: self.log, log_hi: self.log_hi, fail_hi: self.fail_hi, stats: self.stats, host_groups: self.host_groups }
     }
 
     fn is_inline(&self, t: &Tree) -> bool {
@@ -357,6 +360,7 @@ impl<'a> Evaluator<'a> {
             Sem::Unit => Ok(Val::Unit),
             Sem::UnitUser { id } => {
                 self.log.push(id);
+                self.log_hi.push(host_hi);
                 if !is_host {
                     group.push((lhs, id));
                     self.stats.inline_actions += 1;
@@ -377,6 +381,7 @@ impl<'a> Evaluator<'a> {
             Sem::OptNone => Ok(Val::Opt(None)),
             Sem::User { id, name, fallible, args } => {
                 self.log.push(id);
+                self.log_hi.push(host_hi);
                 if !is_host {
                     group.push((lhs, id));
                     self.stats.inline_actions += 1;
